@@ -2,6 +2,7 @@ import FmpRpc.Model.Remote
 import FmpRpc.Model.Tags
 import FmpRpc.Model.Timer
 import FmpRpc.Model.Bytes
+import FmpRpc.Model.TLS
 /-
   Oracle operations for the pure satellites (C16, C18, C19): executable
   wrappers around `Model/Remote`, `Model/Tags`, `Model/Timer`.
@@ -178,5 +179,25 @@ def timer (toks : List String) : String :=
     match (ws.getD i { pc := .get, ret := none }).ret with
     | some t => s!"w{i}@{t}"
     | none => s!"w{i}@never")
+
+/-! TLS -/
+
+def tlsdial (toks : List String) : String :=
+  match toks with
+  | [ck, bh, to] =>
+    let host := "good.example.com"
+    let cfg : TLS.Cfg := { roots := .pem 0, serverName := host }
+    let cert : TLS.Cert := match ck with
+      | "valid" => ⟨.pem 0, [host], true⟩
+      | "otherca" => ⟨.pem 1, [host], true⟩
+      | "othername" => ⟨.pem 0, ["evil.example.com"], true⟩
+      | "expired" => ⟨.pem 0, [host], false⟩
+      | _ => ⟨.pem 2, [host], true⟩
+    let b : TLS.Behav := match bh with
+      | "stall" => .stalls | "close" => .closes | _ => .handshakes
+    let (o, el, cr) := TLS.dial cfg cert b to.toNat!
+    let os := match o with | .ok => "ok" | .fail => "fail" | .timeout => "timeout"
+    s!"{os} created={if cr then 1 else 0} elapsed={el}"
+  | _ => "bad-op"
 
 end Sat
